@@ -133,12 +133,13 @@ where
             PayStatus::FAILED => {
                 if let Some(warning) = resp.warning_partial_completion {
                     warn!("pay returned partial completion: {}", warning);
-                    return match self.wait_payment(req.payment_hash).await? {
-                        Some(preimage) => Ok(preimage),
-                        None => Err(anyhow!("payment failed")),
-                    };
                 };
-                return Err(anyhow!("payment failed"));
+                // Only report failure once no part for this payment hash is
+                // pending or complete anymore, with or without the warning.
+                return match self.wait_payment(req.payment_hash).await? {
+                    Some(preimage) => Ok(preimage),
+                    None => Err(anyhow!("payment failed")),
+                };
             }
         }
     }
